@@ -446,3 +446,99 @@ fn c01_double_check_lemma() {
     kani::assume(s < 64 && d < 64 && promo <= r::QUEEN && s != r::king_of(&p, p.turn));
     assert!(!r::legal(&p, r::Mv { src: s, dst: d, promo }), "VERIF lemma: a non-king move {}->{} is legal in double check", s, d);
 }
+
+// ---------------------------------------------------------------- dispatch in collect_moves
+// Kani cannot stub generic functions in traits (`PieceType::legals::<C>`), so the dispatch is observed one level
+// down: marker stubs for the NON-generic `pseudo_legals` of each piece type (which generator bodies ran), for the
+// generic free function `check_mask::<C>` (with which IS_IN_CHECK constant) and for the inherent generic
+// `King::king_legals::<C>`; the one-shot iterator makes each generator call its `pseudo_legals` once per loop.
+static mut PL_CALLS: [u8; 5] = [0; 5];
+static mut PL_MASK: u64 = 0;
+static mut CM_CALLS: [u8; 2] = [0; 2];
+static mut KING_CALLS: [u8; 2] = [0; 2];
+fn pl(i: usize, mask: BitBoard) -> BitBoard {
+    unsafe {
+        PL_CALLS[i] += 1;
+        PL_MASK = mask.to_u64();
+    }
+    BitBoard::empty()
+}
+fn pl_pawn(_s: Pos, _c: Color, _all: BitBoard, mask: BitBoard) -> BitBoard {
+    pl(0, mask)
+}
+fn pl_knight(_s: Pos, _c: Color, _all: BitBoard, mask: BitBoard) -> BitBoard {
+    pl(1, mask)
+}
+fn pl_bishop(_s: Pos, _c: Color, _all: BitBoard, mask: BitBoard) -> BitBoard {
+    pl(2, mask)
+}
+fn pl_rook(_s: Pos, _c: Color, _all: BitBoard, mask: BitBoard) -> BitBoard {
+    pl(3, mask)
+}
+fn pl_queen(_s: Pos, _c: Color, _all: BitBoard, mask: BitBoard) -> BitBoard {
+    pl(4, mask)
+}
+fn check_mask_marker<const IS_IN_CHECK: bool>(_b: &Board, _k: Pos) -> BitBoard {
+    unsafe { CM_CALLS[IS_IN_CHECK as usize] += 1 };
+    !BitBoard::empty()
+}
+fn king_marker<const IS_IN_CHECK: bool>(_l: &mut MoveList, _b: &Board, _t: Color, mask: BitBoard) {
+    unsafe {
+        KING_CALLS[IS_IN_CHECK as usize] += 1;
+        PL_MASK = mask.to_u64();
+    }
+}
+/// collect_moves(mask): without a checker all six generators run as NO_CHECK; with one checker the five non-king
+/// generators and the king run as IN_CHECK; with two or more only the king (IN_CHECK); each receives
+/// `mask` minus the mover's own squares. (Observed on a board that has an unpinned piece of every kind.)
+#[kani::proof]
+#[kani::unwind(3)]
+#[kani::stub(chess_bitboard::BitBoard::pop, pop_one_shot)]
+#[kani::stub(<Pawn as PieceType>::pseudo_legals, pl_pawn)]
+#[kani::stub(<Knight as PieceType>::pseudo_legals, pl_knight)]
+#[kani::stub(<Bishop as PieceType>::pseudo_legals, pl_bishop)]
+#[kani::stub(<Rook as PieceType>::pseudo_legals, pl_rook)]
+#[kani::stub(<Queen as PieceType>::pseudo_legals, pl_queen)]
+#[kani::stub(check_mask, check_mask_marker)]
+#[kani::stub(King::king_legals, king_marker)]
+fn c01_dispatch() {
+    // loop-free board generator (the harness must not force a larger unwinding bound onto the twelve generator instances)
+    let sets: [u64; 6] = kani::any();
+    let w: u64 = kani::any();
+    kani::assume(sets[0] & sets[1] == 0 && (sets[0] | sets[1]) & sets[2] == 0 && (sets[0] | sets[1] | sets[2]) & sets[3] == 0);
+    kani::assume((sets[0] | sets[1] | sets[2] | sets[3]) & sets[4] == 0 && (sets[0] | sets[1] | sets[2] | sets[3] | sets[4]) & sets[5] == 0);
+    let mut raw = crate::raw::RawBoard::empty();
+    raw.xor(Color::White, Piece::Pawn, BitBoard::from_u64(sets[0] & w));
+    raw.xor(Color::Black, Piece::Pawn, BitBoard::from_u64(sets[0] & !w));
+    raw.xor(Color::White, Piece::Knight, BitBoard::from_u64(sets[1] & w));
+    raw.xor(Color::Black, Piece::Knight, BitBoard::from_u64(sets[1] & !w));
+    raw.xor(Color::White, Piece::Bishop, BitBoard::from_u64(sets[2] & w));
+    raw.xor(Color::Black, Piece::Bishop, BitBoard::from_u64(sets[2] & !w));
+    raw.xor(Color::White, Piece::Rook, BitBoard::from_u64(sets[3] & w));
+    raw.xor(Color::Black, Piece::Rook, BitBoard::from_u64(sets[3] & !w));
+    raw.xor(Color::White, Piece::Queen, BitBoard::from_u64(sets[4] & w));
+    raw.xor(Color::Black, Piece::Queen, BitBoard::from_u64(sets[4] & !w));
+    raw.xor(Color::White, Piece::King, BitBoard::from_u64(sets[5] & w));
+    raw.xor(Color::Black, Piece::King, BitBoard::from_u64(sets[5] & !w));
+    let b = Board { raw, pinned: kani::any(), checkers: kani::any(), turn: kani::any(), ..Board::standard() };
+    let p = view(&b);
+    kani::assume(r::one_king_each(&p));
+    let own = p.col[p.turn as usize] & !b.pinned.to_u64();
+    // an unpinned piece of every non-king kind, so that every generator that runs leaves a trace
+    kani::assume(own & p.pcs[0] != 0 && own & p.pcs[1] != 0 && own & p.pcs[2] != 0 && own & p.pcs[3] != 0 && own & p.pcs[4] != 0);
+    let mask: BitBoard = kani::any();
+    let _ = b.collect_moves(mask);
+    let n = b.checkers.count();
+    let (pc, cm, kc, seen) = unsafe { (PL_CALLS, CM_CALLS, KING_CALLS, PL_MASK) };
+    assert!((pc[0] >= 1) == (n <= 1), "VERIF dispatch: pawn generator ran = {} with {} checkers", pc[0], n);
+    assert!((pc[1] >= 1) == (n <= 1), "VERIF dispatch: knight generator ran = {} with {} checkers", pc[1], n);
+    assert!((pc[2] >= 1) == (n <= 1), "VERIF dispatch: bishop generator ran = {} with {} checkers", pc[2], n);
+    assert!((pc[3] >= 1) == (n <= 1), "VERIF dispatch: rook generator ran = {} with {} checkers", pc[3], n);
+    assert!((pc[4] >= 1) == (n <= 1), "VERIF dispatch: queen generator ran = {} with {} checkers", pc[4], n);
+    assert!(cm[0] == (if n == 0 { 5 } else { 0 }) && cm[1] == (if n == 1 { 5 } else { 0 }), "VERIF dispatch: IS_IN_CHECK constants with {} checkers: NO_CHECK x{}, IN_CHECK x{}", n, cm[0], cm[1]);
+    assert!(kc[0] == (if n == 0 { 1 } else { 0 }) && kc[1] == (if n >= 1 { 1 } else { 0 }), "VERIF dispatch: king generator with {} checkers", n);
+    assert!(seen == mask.to_u64() & !p.col[p.turn as usize], "VERIF dispatch: generators do not receive mask minus own squares");
+    kani::cover!(n == 0, "reach: no checker");
+    kani::cover!(n == 1, "reach: one checker");
+    kani::cover!(n >= 2, "reach: double check");
+}
